@@ -20,9 +20,19 @@ KIND_OPTS = {
 }
 
 
+# second option set (one deviation per kind): types in the docstring and positional parameters for function / method,
+# default text on for class / argparse, word wrap off for the docstring kinds
+KIND_OPTS_B = {
+    "rest": {"edd": True, "ww": False}, "numpydoc": {"edd": True, "ww": False}, "google": {"edd": True, "ww": False},
+    "class": {"edd": True, "ww": True}, "function": {"edd": False, "ww": True, "ft": "static", "inline": False, "kwonly": False},
+    "method": {"edd": False, "ww": True, "ft": "self", "inline": False, "kwonly": False}, "argparse": {"edd": True, "ww": True},
+}
+
+
 class _Cases(core.Space):
-    def __init__(self, irs):
+    def __init__(self, irs, optset=None):
         self.irs = irs
+        self.optset = optset
 
     def __len__(self):
         return len(self.irs) * len(rt.KINDS)
@@ -31,6 +41,8 @@ class _Cases(core.Space):
         j, k = divmod(i, len(rt.KINDS))
         c = dict(self.irs[j])
         c["start"] = rt.KINDS[k]
+        if self.optset:
+            c["optset"] = self.optset
         return c
 
     def describe(self):
@@ -90,7 +102,8 @@ class C05(core.Check):
         return 4 if self.tier == "thorough" else 3
 
     def space(self):
-        return core.Concat(_Cases(al.S_C()), _Hand())
+        return core.Concat(_Cases(al.S_C()), _Hand(),
+                           _Cases(al.IRSpace(al.A_CHAIN, (0, 1) if self.tier == "quick" else (0, 1, 2), al.RETURNS_RED, al.KWARGS, (0,)), "B"))
 
     def policy_for(self, chain):
         code_hop = any(k in ("class", "function", "method", "argparse") for k in chain)
@@ -173,13 +186,14 @@ class C05(core.Check):
         states = set()
         transitions = [0]
         memo = {}
+        kind_opts = KIND_OPTS_B if case.get("optset") == "B" else KIND_OPTS
 
         def convert(kind, text, target):
             key = (kind, text, target)
             if key not in memo:
                 try:
                     mid = rt.parse_kind(kind, text)
-                    memo[key] = ("ok", rt.emit_kind(target, mid, KIND_OPTS[target]))
+                    memo[key] = ("ok", rt.emit_kind(target, mid, kind_opts[target]))
                 except Exception as e:
                     memo[key] = ("raise", core.exc_obs(e))
             transitions[0] += 1
@@ -187,6 +201,8 @@ class C05(core.Check):
 
         def check(chain, text):
             base = {"chain": ">".join(chain)}
+            if case.get("optset"):
+                base["optset"] = case["optset"]
             cf = dict(base, **rt.case_facts(case, atoms, ret))
             try:
                 back = rt.parse_kind(chain[-1], text)
@@ -215,7 +231,7 @@ class C05(core.Check):
         if start == "argparse" and not ap_ok:
             return [], None, "out-of-scope"
         try:
-            t0 = rt.emit_kind(start, ir, KIND_OPTS[start])
+            t0 = rt.emit_kind(start, ir, kind_opts[start])
         except Exception as e:
             return ([site(False, dict({"chain": start}, field="emit", **rt.case_facts(case, atoms, ret)), fail="emit_raise",
                           **core.exc_obs(e))], None, "emit-raise")
